@@ -297,6 +297,8 @@ def special_forms(ctx):
         ("empty-and-falsy-constants", '#define GUARD_H\n#define EMPTY_S ""\n#define ZERO 0\n#define ZERO_F 0.0\n#define EMPTY_B b""\n'
                                       "struct T { uint8 a; };", None),
         ("only-a-valueless-define", "#define ONLY_GUARD_H\n", None),
+        ("self-references", "struct node { uint32 value; struct node *next; node *children[4]; node **pp; };\n"
+                            "union tree { uint8 tag; tree *kids[2]; };\nstruct T { node first; tree *t; };", None),
         ("wchar-char-arrays", "struct T { char a[4]; wchar b[2]; char c[]; wchar d[]; char *s; uint8 **pp; };", None),
     ]
     for label, text, post in forms:
